@@ -128,6 +128,21 @@ func (w *originWalker) cons(c m.ConsM, expr hclsyntax.Expression, selfRefs bool)
 		w.illTyped(expr, c.Ty.Cty())
 		w.anyExpr(expr, selfRefs)
 	case "oneof-foreach":
+		// for_each admits a map or a set: an operation (whose result is a number or a boolean)
+		// cannot have such a type - an ill-typed part like under any other typed place
+		inner := expr
+		for {
+			pe, ok := inner.(*hclsyntax.ParenthesesExpr)
+			if !ok {
+				break
+			}
+			inner = pe.Expression
+		}
+		switch inner.(type) {
+		case *hclsyntax.BinaryOpExpr, *hclsyntax.UnaryOpExpr:
+			w.om.DontCare = append(w.om.DontCare, regionOf(expr.Range()))
+			w.om.Classes["ill-typed-operator"] = true
+		}
 		w.anyExpr(expr, selfRefs)
 	case "ref":
 		if te, ok := expr.(*hclsyntax.ScopeTraversalExpr); ok {
